@@ -6,6 +6,10 @@
                                                       mention (first non-entity member over all orders), or `none`
     c14.sortkeys {"keys":[hex…]}                      the order in which a string-keyed encoder emits the keys
     c14.containsall / c14.containsany {"lhs":[value…],"rhs":[value…]}   the loop's answer over all orders of rhs
+    c14.setorder {"sep":hex,"members":[{"value":value,"text":hex}…]}   the bytes `Set.MarshalJSON/MarshalCedar` write for
+                                                      `NewSet(members…)` (members in insertion order): the table is built
+                                                      with the model's `goHash`, the slots are visited in `orderedSlots`
+                                                      order, each member is written as its `text` (supplied by the harness)
 -/
 import CedarGo.Driver.Ops.Core
 import CedarGo.Model.Order
@@ -44,8 +48,19 @@ def c14Quant (loop : List Value → List Value → Bool) : Handler := fun _ j =>
   else
     .ok ("|".intercalate (sortDedup ((perms rhs).map fun σ => toString (loop lhs σ))))
 
+def opC14SetOrder : Handler := fun _ j => do
+  let sep ← jHex (← field j "sep")
+  let ms ← (← jArr (← field j "members")).mapM fun m => do
+    let v ← decValue (← field m "value")
+    let t ← jHex (← field m "text")
+    .ok (v, t)
+  let written := marshalSetMembers goHash (buildTable goHash (ms.map (·.1)))
+  let texts := written.map fun v => match ms.find? (fun m => m.1.beq v) with | some m => m.2 | none => "?"
+  .ok (hex ("[" ++ sep.intercalate texts ++ "]"))
+
 def c14Ops : List (String × Handler) :=
   [("c14.reclit", opC14RecLit), ("c14.inmsg", opC14InMsg), ("c14.sortkeys", opC14SortKeys),
-   ("c14.containsall", c14Quant containsAllLoop), ("c14.containsany", c14Quant containsAnyLoop)]
+   ("c14.containsall", c14Quant containsAllLoop), ("c14.containsany", c14Quant containsAnyLoop),
+   ("c14.setorder", opC14SetOrder)]
 
 end CedarGo.Driver
